@@ -504,43 +504,90 @@ func (c *Ctx) ruleS1() {
 			n++
 		}
 		cons := fnKey(f) + "→Load#no-started-memo"
-		// state written here
+		// state written here, or in a same-receiver helper called from here
 		written := map[*types.Var]bool{}
-		eachInstr(f, func(in ssa.Instruction) {
-			switch x := in.(type) {
-			case *ssa.MapUpdate:
-				if u, ok := x.Map.(*ssa.UnOp); ok {
-					if fa, ok := u.X.(*ssa.FieldAddr); ok && isRecv(f, fa.X) {
-						written[fieldVarOf(fa)] = true
+		writesOf := func(g *ssa.Function) {
+			eachInstr(g, func(in ssa.Instruction) {
+				switch x := in.(type) {
+				case *ssa.MapUpdate:
+					if u, ok := x.Map.(*ssa.UnOp); ok {
+						if fa, ok := u.X.(*ssa.FieldAddr); ok && isRecv(g, fa.X) {
+							written[fieldVarOf(fa)] = true
+						}
+					}
+				case ssa.CallInstruction:
+					full := calleeFull(x)
+					if full == "(*sync.Map).Store" || full == "(*sync.Map).LoadOrStore" || full == "(*sync.Map).Swap" {
+						if fa, ok := x.Common().Args[0].(*ssa.FieldAddr); ok && isRecv(g, fa.X) {
+							written[fieldVarOf(fa)] = true
+						}
 					}
 				}
-			case ssa.CallInstruction:
-				full := calleeFull(x)
-				if full == "(*sync.Map).Store" || full == "(*sync.Map).LoadOrStore" || full == "(*sync.Map).Swap" {
-					if fa, ok := x.Common().Args[0].(*ssa.FieldAddr); ok && isRecv(f, fa.X) {
-						written[fieldVarOf(fa)] = true
-					}
-				}
+			})
+		}
+		var helpers []*ssa.Function
+		writesOf(f)
+		eachCall(f, func(call ssa.CallInstruction) {
+			if _, isGo := call.(*ssa.Go); isGo {
+				return
 			}
-		})
-		var seeds []ssa.Value
-		eachInstr(f, func(in ssa.Instruction) {
-			switch x := in.(type) {
-			case *ssa.Lookup:
-				if u, ok := x.X.(*ssa.UnOp); ok {
-					if fa, ok := u.X.(*ssa.FieldAddr); ok && isRecv(f, fa.X) && written[fieldVarOf(fa)] {
-						seeds = append(seeds, x)
-					}
-				}
-			case *ssa.Call:
-				full := calleeFull(x)
-				if full == "(*sync.Map).Load" || full == "(*sync.Map).LoadOrStore" {
-					if fa, ok := x.Call.Args[0].(*ssa.FieldAddr); ok && isRecv(f, fa.X) && written[fieldVarOf(fa)] {
-						seeds = append(seeds, x)
-					}
-				}
+			h := call.Common().StaticCallee()
+			if h == nil || h.Blocks == nil || h.Pkg != f.Pkg || h.Signature.Recv() == nil || len(call.Common().Args) == 0 || !isRecv(f, call.Common().Args[0]) {
+				return
 			}
+			helpers = append(helpers, h)
+			writesOf(h)
 		})
+		stateRead := func(g *ssa.Function) []ssa.Value {
+			var out []ssa.Value
+			eachInstr(g, func(in ssa.Instruction) {
+				switch x := in.(type) {
+				case *ssa.Lookup:
+					if u, ok := x.X.(*ssa.UnOp); ok {
+						if fa, ok := u.X.(*ssa.FieldAddr); ok && isRecv(g, fa.X) && written[fieldVarOf(fa)] {
+							out = append(out, x)
+						}
+					}
+				case *ssa.Call:
+					full := calleeFull(x)
+					if full == "(*sync.Map).Load" || full == "(*sync.Map).LoadOrStore" {
+						if fa, ok := x.Call.Args[0].(*ssa.FieldAddr); ok && isRecv(g, fa.X) && written[fieldVarOf(fa)] {
+							out = append(out, x)
+						}
+					}
+				}
+			})
+			return out
+		}
+		seeds := stateRead(f)
+		// a helper whose result is such a lookup
+		for _, h := range helpers {
+			hs := stateRead(h)
+			if len(hs) == 0 {
+				continue
+			}
+			dh := derived(hs, flowOpts{})
+			returnsState := false
+			eachInstr(h, func(in ssa.Instruction) {
+				if r, ok := in.(*ssa.Return); ok {
+					for _, v := range r.Results {
+						for _, rv := range resolveSpill(v) {
+							if dh[rv] || dh[v] {
+								returnsState = true
+							}
+						}
+					}
+				}
+			})
+			if !returnsState {
+				continue
+			}
+			eachCall(f, func(call ssa.CallInstruction) {
+				if call.Common().StaticCallee() == h && call.Value() != nil {
+					seeds = append(seeds, call.Value())
+				}
+			})
+		}
 		if len(seeds) == 0 {
 			c.ok("S1", cons, loads[0].Pos(), "nothing recorded by an earlier call decides whether heads are handed to the replicator")
 			continue
